@@ -210,7 +210,7 @@ def check_streams(case):
       if local <= last_id:
         flags['wrap'] = True
       last_id = local
-      ent = {'stream': None, 'local': local, 'state': 'failed', 'buf': '', 'script': script[idx] if idx < len(script) else {}, 'dev_closed': False,
+      ent = {'stream': None, 'local': local, 'remote': 100 + idx, 'state': 'failed', 'buf': '', 'script': script[idx] if idx < len(script) else {}, 'dev_closed': False,
              'clse_expected': 0}
       streams.append(ent)
       if how == 'OKAY':
@@ -245,12 +245,12 @@ def check_streams(case):
       if any(e is not ent and e['local'] == ent['local'] and streams.index(e) > streams.index(ent) for e in streams):
         continue  # a stale stream object whose id has since been reused by a newer stream: outside the statement
       if kind == 'close':
-        before = count_host(dev, 'CLSE', ent['local'])
+        before = count_host(dev, 'CLSE', ent['local'], ent.get('remote'))
         try:
           s.close(timeout_ms=100)
         except Exception as e:  # pylint: disable=broad-except
           r.bad('C15/streams/close-raised/%s' % type(e).__name__, '%s: %r' % (when, e))
-        after = count_host(dev, 'CLSE', ent['local'])
+        after = count_host(dev, 'CLSE', ent['local'], ent.get('remote'))
         if ent['state'] == 'open':
           flags['closes'] += 1
           ent['state'] = 'closed'
@@ -283,7 +283,7 @@ def check_streams(case):
             r.bad('C15/streams/read-wrong-error/%s' % err[0], '%s: read_until_close() raised %r' % (when, err))
         else:
           # the generator ended: the stream reported closed
-          acked = ''.join(sc.get('wrtes', [])[:count_host(dev, 'OKAY', ent['local'])])
+          acked = ''.join(sc.get('wrtes', [])[:count_host(dev, 'OKAY', ent['local'], ent.get('remote'))])
           if len(acked) > consumed:
             r.bad('C15/streams/buffered-data-not-drained', '%s: read_until_close() on a stream in state %s ended, but %r was received and acknowledged and never yielded' % (
                 when, ent['state'], acked[consumed:][:30]))
@@ -292,7 +292,7 @@ def check_streams(case):
           if ent['state'] == 'open' and sc.get('close'):
             if all_data[consumed:]:
               r.bad('C15/streams/data-lost-at-remote-close', '%s: read_until_close() ended with %r undelivered' % (when, all_data[consumed:][:30]))
-            n = count_host(dev, 'CLSE', ent['local'])
+            n = count_host(dev, 'CLSE', ent['local'], ent.get('remote'))
             if n != 1:
               r.bad('C15/streams/CLSE-count', '%s: remote close answered with %d CLSE packets (expected exactly 1)' % (when, n))
             ent['state'] = 'closed'
@@ -323,7 +323,7 @@ def check_streams(case):
           if got[1] == 'AdbStreamClosedError':
             # whichever side closed: what the host had already received (= acknowledged with an OKAY) is buffered data and
             # is drained before the stream reports closed
-            acked = ''.join(sc.get('wrtes', [])[:count_host(dev, 'OKAY', ent['local'])])
+            acked = ''.join(sc.get('wrtes', [])[:count_host(dev, 'OKAY', ent['local'], ent.get('remote'))])
             if len(acked) > consumed and (not op[2] or len(acked) - consumed >= op[2]):
               r.bad('C15/streams/buffered-data-not-drained', '%s: stream (state %s) reported closed, but %r was received and acknowledged and never returned by read()' % (
                   when, ent['state'], acked[consumed:][:30]))
@@ -333,7 +333,7 @@ def check_streams(case):
               r.bad('C15/streams/data-lost-at-remote-close', '%s: reported closed with %r undelivered' % (when, remaining[:30]))
             if ent['state'] == 'open' and sc.get('close'):
               flags['remote_close_buffered'] = flags['remote_close_buffered'] or bool(all_data)
-              n = count_host(dev, 'CLSE', ent['local'])
+              n = count_host(dev, 'CLSE', ent['local'], ent.get('remote'))
               if n != 1:
                 r.bad('C15/streams/CLSE-count', '%s: remote close answered with %d CLSE packets (expected exactly 1)' % (when, n))
               ent['state'] = 'closed'
@@ -375,8 +375,9 @@ def check_streams(case):
   return r
 
 
-def count_host(dev, cmd, local):
-  return len([x for x in dev.log if x[0] == 'host' and x[1]['cmd'] == cmd and x[1]['arg0'] == local])
+def count_host(dev, cmd, local, remote=None):
+  # local ids are re-used once a stream is gone (LIMIT is small here): a packet belongs to a stream by both of its ids
+  return len([x for x in dev.log if x[0] == 'host' and x[1]['cmd'] == cmd and x[1]['arg0'] == local and (remote is None or x[1]['arg1'] == remote)])
 
 
 @st.composite
